@@ -7,6 +7,7 @@ import (
 	"fmt"
 	"strings"
 
+	"github.com/hedzr/is"
 	"github.com/hedzr/is/term/color"
 	"github.com/hedzr/logg/slog"
 )
@@ -221,6 +222,37 @@ func c17One(r *Run, snap *slog.VerifRegistry, calls []regCall, kind string) {
 			if o.ErrDev != (cl.Err == 1) {
 				fail("C17/error-device", fmt.Sprintf("level %d registered with error-device=%v is routed errdev=%v", cl.V, cl.Err == 1, o.ErrDev))
 			}
+			// the same two effects, observed on a logger (not read from the tables): where a record of the level
+			// lands, and which logger levels admit it
+			pr := slog.VerifEntryOf(slog.New("c17probe"))
+			pr.SetWriter(pool[1]).SetErrorWriter(pool[2]).SetLevel(slog.AlwaysLevel).SetColorMode(false)
+			events = nil
+			pr.LogAttrs(nil, l, "c17 probe")
+			var dests []int
+			for _, ev := range events {
+				if ev.Kind == "write" {
+					dests = append(dests, ev.W)
+				}
+			}
+			events = nil
+			wantDest := 1
+			if cl.Err == 1 {
+				wantDest = 2
+			}
+			if fmt.Sprint(dests) != fmt.Sprint([]int{wantDest}) {
+				fail("C17/error-device-routing", fmt.Sprintf("level %d registered with error-device=%v (treated as %d): a record of it was written to %v (1 = normal, 2 = error writer)", cl.V, cl.Err == 1, wantTreat, dests))
+			}
+			dbg := is.DebugMode()
+			is.SetDebugMode(false)
+			for _, L := range []int{0, 1, 2, 3, 4, 6} {
+				pr.SetLevel(slog.Level(L))
+				is.SetDebugMode(false) // SetLevel(Debug/Trace) never reaches here (5 is left out), kept explicit
+				if got, want := pr.Enabled(l), wantTreat <= L && wantTreat != 7; got != want && wantTreat >= 0 && wantTreat < 12 && wantTreat != 8 && wantTreat != 5 {
+					fail("C17/treated-as-gating", fmt.Sprintf("level %d registered treated-as %d: a logger at level %d admits it = %v", cl.V, wantTreat, L, got))
+				}
+			}
+			is.SetDebugMode(dbg)
+			is.SetTraceMode(false)
 		}
 	}
 	// every level: round trips and tag lengths
